@@ -279,6 +279,51 @@ class Impl:
             finally:
                 self.h.chunk_getter = None
             return self.state(want_io, {'res': res})
+        if kind == 'lookup':
+            chunk = bytes.fromhex(op['chunk'])
+            called = []
+
+            async def getter(start):
+                called.append(start)
+                co = zlib.compressobj(wbits=-15)
+                return {'base64': base64.b64encode(co.compress(chunk) + co.flush()).decode()}
+            self.h.chunk_getter = getter
+            before = self.h.writes
+            height, via = op['height'], op['via']
+            got = None
+            try:
+                if via == 'get':
+                    got = self.run(self.h.get(height))
+                elif via == 'hash':
+                    got = self.run(self.h.hash(height))
+                elif via == 'get_raw_header':
+                    got = self.run(self.h.get_raw_header(height))
+                else:
+                    self.run(self.h.ensure_chunk_at(height))
+                    if not 0 <= height <= self.h.height:
+                        raise IndexError('out of bounds')
+                    got = self.h._read(height)
+                res = 'ok'
+            except IndexError:
+                res = 'IndexError'
+            except Exception as e:  # the code raises a bare Exception on a checkpoint mismatch
+                res = 'mismatch' if str(e).startswith('Checkpoint mismatch') else 'error:' + type(e).__name__
+            finally:
+                self.h.chunk_getter = None
+            d = {'res': res}
+            if res == 'ok':
+                raw = self.h._read(height)
+                # what the caller received must be that stored header
+                if via == 'get':
+                    good = Headers.serialize(got) == raw and got['block_height'] == height
+                elif via == 'hash':
+                    good = got == hexlify(dsha(raw)[::-1])
+                else:
+                    good = got == raw
+                d['raw'] = raw.hex() if good else 'returned value is not the stored header: %r' % (got,)
+            d['fetch'] = ('mismatch' if res == 'mismatch' else 'has' if not called else
+                          'stored' if self.h.writes > before else 'ignored')
+            return self.state(want_io, d)
         if kind == 'has_header':
             return bool(self.h.has_header(op['height']))
         raise ValueError(kind)
@@ -300,6 +345,7 @@ class Monitor:
     def __init__(self, cfg, file):
         self.cfg = cfg
         self.file = file            # what is on disk, as the harness wrote / read it
+        self.stored = file          # what the implementation (or the generator) stored before any damage
         self.io = b''
         self.size = 0
         self.w = 0                  # end of the most recently connected batch
@@ -338,6 +384,14 @@ class Monitor:
                 self.fail(f'undamaged file of {whole} headers loaded as {size}')
             if fb is not None and size < max(0, fb - 1):
                 self.fail(f'first damaged link at {fb} but only {size} headers kept')
+        # link-detectable damage above the start of the check: the loaded chain is a prefix of what was STORED,
+        # i.e. it does not contain the damaged header itself
+        if fb is not None and self.stored is not None and fb > start:
+            lo, hi = start * HS, size * HS
+            if io_after[lo:hi] != self.stored[lo:hi]:
+                d = next(h for h in range(start, size) if io_after[h * HS:(h + 1) * HS] != self.stored[h * HS:(h + 1) * HS])
+                self.fail(f'loaded chain of {size} headers contains header {d} which differs from what was stored '
+                          f'(first broken link at {fb})')
         # the loaded chain above the checkpoint horizon must link
         bl = self.broken_links(io_after, hz, size)
         if bl:
@@ -410,10 +464,32 @@ class Monitor:
                 self.fail('stored chunk differs from the fetched one')
         self.io, self.size = io_after, size
 
+    def on_lookup(self, op, res, io_after, size):
+        """a lookup may store only a chunk that hashes to the checkpoint of its range; in a range without a
+        checkpoint nothing unvalidated may enter the store: the chain stays byte for byte what connect validated"""
+        chunk = bytes.fromhex(op['chunk'])
+        start = op['height'] // CHUNK * CHUNK
+        cp = dict((h, x) for h, x in self.cfg['checkpoints'])
+        if start not in cp:
+            if io_after != self.io or size != self.size:
+                self.fail(f'lookup of height {op["height"]} via {op["via"]} changed the stored chain ({self.size} -> '
+                          f'{size} headers) with a server chunk for the un-checkpointed range {start}')
+            elif res.get('res') == 'ok' and op['height'] >= self.size:
+                self.fail(f'lookup of height {op["height"]} beyond the {self.size} stored headers succeeded')
+        elif io_after != self.io:
+            if cp.get(start) != dsha(chunk).hex():
+                self.fail(f'chunk at {start} stored although it does not hash to the checkpoint')
+        if not self.cfg['checkpoints'] and self.bad is None and size <= 64:
+            r = self.chain_ok(io_after, size)
+            if r is not None:
+                self.fail(f'after the lookup the stored chain breaks rule {r[1]} at height {r[0]}')
+        self.io, self.size = io_after, size
+
     def on_close(self, file_after):
         if file_after[:len(self.io)] != self.io:
             self.fail('file written by close() does not start with the chain in memory')
         self.file = file_after
+        self.stored = file_after
 
 
 # ------------------------------------------------------------------------------------------------
@@ -557,10 +633,19 @@ class History:
             self.mon.on_connect(op, res['res'], self.impl.io(), res['size'])
         elif k in ('fetch', 'fetch_chunk'):
             self.mon.on_fetch(op, res['res'], self.impl.io(), res['size'])
+        elif k == 'lookup':
+            self.mon.on_lookup(op, res, self.impl.io(), res['size'])
+            self.run.count('lookup:%s/%s' % (res['fetch'], res['res']))
         elif k == 'close':
             self.mon.on_close(self.impl.get_file())
         elif k in ('setfile', 'patchfile'):
             self.mon.file = self.impl.get_file()
+            if k == 'setfile':
+                st = self.mon.file
+                if st is not None and 'undo' in op:
+                    off, data = op['undo'][0], bytes.fromhex(op['undo'][1])
+                    st = st[:off] + data + st[off + len(data):]
+                self.mon.stored = st
         elif k == 'repair':
             self.mon.io, self.mon.size = self.impl.io(), res['size']
             self.mon.w = min(self.mon.w, res['size'])
@@ -750,7 +835,13 @@ def reopen_cases(run, model, cfg, files, kind, box=None):
     """open() on each given file content (one model call for all of them)"""
     h = History(run, model, cfg, None, kind, box)
     for f in files:
-        h.do({'op': 'setfile', 'file': f.hex()})
+        undo = None
+        if isinstance(f, tuple):
+            f, undo = f
+        op = {'op': 'setfile', 'file': f.hex()}
+        if undo is not None:
+            op['undo'] = [undo[0], undo[1].hex()]
+        h.do(op)
         h.do({'op': 'open', 'io': len(f) < 20000})
     return h.finish()
 
@@ -765,8 +856,9 @@ def gen_damage_small(run, model, rng, chain, cfg, positions, kind):
     files = []
     for (hgt, off, data) in positions:
         b = bytearray(b''.join(chain))
+        old = bytes(b[hgt * HS + off:hgt * HS + off + len(data)])
         b[hgt * HS + off:hgt * HS + off + len(data)] = data
-        files.append(bytes(b) + b'\x00')
+        files.append((bytes(b) + b'\x00', (hgt * HS + off, old)))
     return reopen_cases(run, model, cfg, files, kind)
 
 
@@ -778,8 +870,11 @@ def gen_big_reopen(run, model, rng, n, damage):
     for (hgt, lo, hi) in damage:
         b = bytearray(b''.join(chain))
         if hgt is not None:
+            old = bytes(b[hgt * HS + lo:hgt * HS + hi])
             b[hgt * HS + lo:hgt * HS + hi] = rng.randbytes(hi - lo)
-        files.append(bytes(b))
+            files.append((bytes(b), (hgt * HS + lo, old)))
+        else:
+            files.append(bytes(b))
     return reopen_cases(run, model, cfg, files, 'big-reopen')
 
 
@@ -827,6 +922,87 @@ def gen_checkpoints(run, model, rng, two, box=None):
         h.do({'op': 'patchfile', 'off': rng.randrange(0, nchunks * CHUNK * HS - 4), 'data': rng.randbytes(4).hex()})
     h.do({'op': 'open', 'io': False})
     h.do({'op': 'close'})
+    return h.finish()
+
+
+VIAS = ['get', 'hash', 'get_raw_header', 'ensure_chunk_at']
+
+
+def server_chunks(rng, miner, main, start):
+    """what a server may answer for the range beginning at `start`: junk, a linked but unvalidated chunk, a fully
+    valid continuation of our own chain, our own headers, nothing, a misaligned blob"""
+    own = b''.join(main[start:start + CHUNK])
+    cont = b''.join(miner.extend(main, 3)[start:])
+    return [
+        ('junk', b''.join(rand_header(rng) for _ in range(rng.randrange(1, 12)))),
+        ('linked', b''.join(linked_chain(rng, rng.randrange(2, 12)))),
+        ('own', own),
+        ('own+valid', cont),
+        ('own-altered', own[:-1] + bytes([own[-1] ^ 1]) if own else b''),
+        ('empty', b''),
+        ('misaligned', rng.randbytes(rng.choice([1, 111, 113, 300]))),
+        ('zeros', bytes(HS * rng.randrange(1, 4))),
+    ]
+
+
+@guarded
+def gen_lookups(run, model, rng, box=None):
+    """chunk getter installed, no checkpoint for the range: look up stored heights, heights above the tip and far
+    above it through get / hash / get_raw_header / ensure_chunk_at while the server answers with junk, a linked
+    but unvalidated chunk, the right headers, a valid continuation ...; then keep connecting"""
+    cfg = easy_cfg(rng, vd=rng.random() < 0.9)
+    miner = Miner(rng, cfg)
+    main = miner.extend([miner.genesis()], rng.randrange(4, 10))
+    cfg = with_genesis(cfg, main)
+    miner.cfg = cfg
+    h = History(run, model, cfg, None, 'lookups', box)
+    h.do({'op': 'open'})
+    pos = rng.randrange(2, len(main))
+    h.connect(0, main[:pos])
+    for _ in range(rng.randrange(6, 14)):
+        size = h.size()
+        height = rng.choice([size, size, size + 1, size + 3, max(0, size - 1), rng.randrange(0, max(1, size)), 999, 1000,
+                             1000 + rng.randrange(1000), 2005])
+        start = height // CHUNK * CHUNK
+        name, chunk = rng.choice(server_chunks(rng, miner, main, start if start < len(main) else 0))
+        h.do({'op': 'lookup', 'via': rng.choice(VIAS), 'height': height, 'chunk': chunk.hex()})
+        run.count('lookup-answer:' + name)
+        if rng.random() < 0.3 and pos < len(main):
+            k = rng.randrange(1, len(main) - pos + 1)
+            h.connect(pos, main[pos:pos + k])
+            pos += k
+    if rng.random() < 0.5:
+        h.do({'op': 'close'})
+        h.do({'op': 'open'})
+    return h.finish()
+
+
+@guarded
+def gen_lookups_zero_slot(run, model, rng, box=None):
+    """a checkpoint for range 1000 only: open() pre-allocates, so the un-checkpointed range 0..999 holds a few
+    validated headers followed by all-zero slots; look those up while the server answers with junk"""
+    upper = linked_chain(rng, CHUNK)
+    cfg0 = {'max_target': (1 << 255) - 1, 'genesis': None, 'vd': True, 'checkpoints': []}
+    miner = Miner(rng, cfg0)
+    main = miner.extend([miner.genesis()], rng.randrange(3, 7))
+    cfg = {'max_target': (1 << 255) - 1, 'genesis': dsha(main[0]).hex(), 'vd': True,
+           'checkpoints': [[CHUNK, dsha(b''.join(upper)).hex()]]}
+    miner.cfg = cfg
+    h = History(run, model, cfg, b''.join(main), 'lookups-zero-slot', box)
+    h.do({'op': 'open', 'io': False})
+    n = len(main)
+    for height in [n, n + 1, rng.randrange(n, CHUNK), 999, rng.randrange(0, n), 0]:
+        name, chunk = rng.choice(server_chunks(rng, miner, main, 0)[:5])
+        h.do({'op': 'lookup', 'via': rng.choice(VIAS), 'height': height, 'chunk': chunk.hex(), 'io': False})
+        run.count('lookup-answer:' + name)
+    # the checkpointed range above: wrong chunk refused, right chunk stored
+    bad = bytearray(b''.join(upper))
+    bad[rng.randrange(len(bad))] ^= 1
+    h.do({'op': 'lookup', 'via': rng.choice(VIAS), 'height': CHUNK + rng.randrange(CHUNK), 'chunk': bytes(bad).hex(),
+          'io': False})
+    h.do({'op': 'lookup', 'via': rng.choice(VIAS), 'height': CHUNK + rng.randrange(CHUNK),
+          'chunk': b''.join(upper).hex(), 'io': False})
+    h.do({'op': 'lookup', 'via': 'get_raw_header', 'height': rng.randrange(0, n), 'chunk': b''.join(upper).hex()})
     return h.finish()
 
 
@@ -1101,7 +1277,10 @@ def main(run):
         'prev / bits / pow, wrong start, misaligned and empty batches, re-connects), close, cut or overwrite the file '
         'at a random byte, reopen; the 20 main-net fixture headers at real difficulty; every cut offset and every '
         'single-field damage of small chains; aligned files of 1001..1100 headers damaged above the 1000-header '
-        'horizon; 1 and 2 checkpointed chunks fetched with wrong / truncated / right content. distinct = distinct '
+        'horizon; 1 and 2 checkpointed chunks fetched with wrong / truncated / right content; lookups (get / hash / '
+        'get_raw_header / ensure_chunk_at) with a chunk getter installed at stored heights, above the tip, in all-zero '
+        'slots and in checkpointed ranges while the server answers with junk, a linked but unvalidated chunk, our own '
+        'headers, a valid continuation, nothing or a misaligned blob. distinct = distinct '
         'full case (config, file, op list); non-trivial = more than one operation or a non-zero pure input.')
 
     # corpus first
@@ -1132,7 +1311,7 @@ def main(run):
         check_codec(run, model, rng)
 
     # ---- main-net fixture
-    gen_mainnet(run, model, rng, vlib.scaled(T, 12, 300))
+    gen_mainnet(run, model, rng, vlib.scaled(T, 20, 300))
     hs = mainnet()
     blob_len = 20 * HS
     if T == 'thorough':
@@ -1172,7 +1351,7 @@ def main(run):
         gen_damage_small(run, model, rng, ch, c2, pos, 'batch-boundary')
 
     # ---- histories
-    for _ in range(vlib.scaled(T, 60, 1500)):
+    for _ in range(vlib.scaled(T, 100, 1500)):
         gen_history(run, model, rng, rng.randrange(4, 14))
     for _ in range(vlib.scaled(T, 3, 40)):
         gen_stale_tail(run, model, rng)
@@ -1190,8 +1369,16 @@ def main(run):
     for i in range(vlib.scaled(T, 2, 12)):
         gen_checkpoints(run, model, rng, two=bool(i % 2))
 
+    # ---- lookups while a chunk getter is installed
+    for _ in range(vlib.scaled(T, 40, 600)):
+        gen_lookups(run, model, rng)
+    for _ in range(vlib.scaled(T, 3, 20)):
+        gen_lookups_zero_slot(run, model, rng)
+
     run.partial = []
-    run.supporting = {'miner_hash_attempts': 'see histogram'}
+    run.supporting = {}
+    run.extra_assumptions.append('hashlib SHA-256 / SHA-512 / RIPEMD-160 answer the model\'s oracle calls; the '
+                                 'theorems hold for every function in their place')
     model.close()
 
 
